@@ -295,3 +295,6 @@ def check(facts, rep, tier, cfg):
     for v in sub.violations:
         if sel(v["key"]):
             rep.bad("C02.R9", v["key"], v["where"], v["msg"])
+    rep.rule("C02.S7", "who-may: the functions that touch the critical resources behind this property are those of the reference tree (flow table, closed flag, per-stream / datagram / outbound queues, last-pong timestamp, client id maps, shared TLS identity)")
+    import whomay
+    whomay.check(facts, rep, "C02.S7", "C02")
